@@ -216,12 +216,16 @@ type crashPoint struct {
 	Name     string `json:"name"`
 	K        int    `json:"k"`
 	Second   string `json:"second,omitempty"` // crash point armed for the FIRST restart (repeated crash cycle)
+	Both     bool   `json:"both,omitempty"`   // the runner is killed together with the daemon (machine-level failure of both processes)
 }
 
 func (c crashPoint) String() string {
 	s := fmt.Sprintf("%s/%s/%s#%d", c.Workload, c.Role, c.Name, c.K)
 	if c.Second != "" {
 		s += "+" + c.Second
+	}
+	if c.Both {
+		s += "+runner-too"
 	}
 
 	return s
@@ -387,6 +391,20 @@ func experiment(bin, base string, cp crashPoint, idx int) *outcome {
 		o.Class = "acked-not-started"
 	default:
 		o.Class = "runner-alive"
+	}
+	if cp.Both && cp.Role == "daemon" && spawned {
+		// daemon AND runner die together: nobody is left to start or to follow the unit
+		if daemon.PidAlive(rpid) && strings.Contains(daemon.PidCmdline(rpid), "--command-runner") {
+			_ = syscall.Kill(rpid, syscall.SIGKILL)
+			for t0 := time.Now(); daemon.PidAlive(rpid) && time.Since(t0) < 5*time.Second; {
+				time.Sleep(10 * time.Millisecond)
+			}
+		}
+		if disk := readStatusFile(d, k.ID); disk != nil && daemon.Num(disk, "State") == 0 && k.Acked {
+			o.Class = "both-killed-before-running"
+		} else if k.Acked {
+			o.Class = "runner-killed"
+		}
 	}
 	var preDisk map[string]any
 	if w.remote && k.Acked {
@@ -557,6 +575,17 @@ func experiment(bin, base string, cp crashPoint, idx int) *outcome {
 		}
 	}
 	switch o.Class {
+	case "both-killed-before-running":
+		// the payload never started and no supervisor is left: "reported as failed rather than left pending"
+		for t0 := time.Now(); st == 0 && time.Since(t0) < 5*time.Second; time.Sleep(250 * time.Millisecond) {
+			if m, _, err := statusOf(d, k.ID, 20*time.Second); err == nil && m != nil {
+				st = daemon.Num(m, "State")
+			}
+		}
+		if st == 0 {
+			viol("C04:left-pending"+suffix+"+runner-too", fmt.Sprintf("unit %s: daemon and runner were killed before the payload started (record Pending, Detail %q); after restart no runner is alive and the unit is still reported Pending",
+				k.ID, daemon.Str(ent, "Detail")))
+		}
 	case "acked-not-started":
 		if st == 0 {
 			viol("C04:left-pending"+suffix, fmt.Sprintf("unit %s never started but is reported Pending after restart (Detail %q)", k.ID, daemon.Str(ent, "Detail")))
@@ -629,7 +658,7 @@ func emptyStatusSeen(evs []sftrace.Event, unitdir string) bool {
 			continue
 		}
 		if (e.Str("ev") == "sf_read" && e.Int("fsize") == 0 && e.Bool("ok")) ||
-			(e.Str("ev") == "sf_load" && !e.Bool("ok") && strings.Contains(e.Str("err"), "unexpected end of JSON")) {
+			(e.Str("ev") == "sf_load" && !e.Bool("ok") && (strings.Contains(e.Str("err"), "unexpected end of JSON") || e.Str("err") == "EOF")) {
 			return true
 		}
 	}
@@ -881,6 +910,9 @@ func c04Main(args []string) {
 	if *only != "" {
 		var cp crashPoint
 		s := *only
+		if strings.HasSuffix(s, "+runner-too") {
+			cp.Both, s = true, strings.TrimSuffix(s, "+runner-too")
+		}
 		if i := strings.IndexByte(s, '+'); i >= 0 {
 			cp.Second, s = s[i+1:], s[:i]
 		}
@@ -958,7 +990,7 @@ func c04Main(args []string) {
 			// the windows named in the property first: truncate/write of status rewrites, unit creation, stdin
 			prio := func(p crashPoint) int {
 				switch {
-				case strings.HasPrefix(p.Name, "ufs_after_write"), strings.HasPrefix(p.Name, "ufs_after_trunc"), strings.HasPrefix(p.Name, "save_"), strings.HasPrefix(p.Name, "alloc_"):
+				case strings.HasPrefix(p.Name, "ufs_before_write"), strings.HasPrefix(p.Name, "ufs_after_write"), strings.HasPrefix(p.Name, "ufs_after_trunc"), strings.HasPrefix(p.Name, "save_"), strings.HasPrefix(p.Name, "alloc_"):
 					return 0
 				case strings.HasPrefix(p.Name, "submit_"), strings.HasPrefix(p.Name, "start_"), strings.HasPrefix(p.Name, "runner_"):
 					return 1
@@ -968,6 +1000,29 @@ func c04Main(args []string) {
 			}
 			rng := rand.New(rand.NewSource(*seed))
 			chosen := map[int]bool{}
+			// one representative of every crash window of the policy table and of every workload comes first
+			// ("#0" = the last hit of that point in the dry run)
+			for _, want := range []string{
+				"finish/daemon/submit_after_stdin_copy#1", "long/daemon/start_after_spawn#1", "finish/daemon/daemon_on_runner_exit#1",
+				"finish/daemon/ufs_before_write#0", "finish/daemon/ufs_after_write#0", "finish/runner/ufs_before_write#1", "long/runner/runner_after_child_start#1",
+				"remote/daemon/submit_after_stdin_copy#1", "remote/daemon/ufs_after_write#0", "remote/daemon/submit_after_start#1",
+				"cancel/daemon/cancel_after_signal#1", "release/daemon/release_after_rmdir#1", "finish/daemon/save_after_trunc#1", "long/daemon/submit_after_start#1",
+			} {
+				nk := strings.SplitN(want, "#", 2)
+				wk := 0
+				fmt.Sscanf(nk[1], "%d", &wk)
+				for i, p := range points {
+					if p.Workload+"/"+p.Role+"/"+p.Name != nk[0] {
+						continue
+					}
+					kk := key{p.Workload, p.Role, p.Name}
+					if (wk > 0 && p.K == wk) || (wk == 0 && last[kk] == i) {
+						if len(chosen) < *maxPoints {
+							chosen[i] = true
+						}
+					}
+				}
+			}
 			var must, rest []int
 			for i, p := range points {
 				kk := key{p.Workload, p.Role, p.Name}
@@ -1002,6 +1057,11 @@ func c04Main(args []string) {
 					crashPoint{Workload: "finish", Role: "daemon", Name: "submit_after_stdin_copy", K: 1, Second: s})
 			}
 		}
+	}
+	if *only == "" {
+		points = append(points,
+			crashPoint{Workload: "long", Role: "daemon", Name: "start_after_pid", K: 1, Both: true},
+			crashPoint{Workload: "finish", Role: "daemon", Name: "submit_after_start", K: 1, Both: true})
 	}
 	res.Extra["points_selected"] = len(points)
 	// ---- the experiments
